@@ -50,16 +50,16 @@ def run(ck):
     em = ExprModel(ck.repo)
     m = ck.repo.mod(SE)
     meths = m.methods(CLS)
-    ck.rule("R1", "sources and destination pointers of an assignment block are all evaluated before any state write; evaluation is write-free", floor=4)
-    ck.rule("R2", "the evaluation cache lives for one assignment block only", floor=2)
-    ck.rule("R3", "every expression class has a visitor that re-evaluates every child and rebuilds the same node", floor=12)
+    ck.rule("R1", "sources and destination pointers of an assignment block are all evaluated before any state write; evaluation is write-free", floor=2)
+    ck.rule("R2", "the evaluation cache lives for one assignment block only", floor=1)
+    ck.rule("R3", "every expression class has a visitor that re-evaluates every child and rebuilds the same node", floor=10)
     ck.rule("R4", "assignment blocks execute in order; the destination is evaluated last", floor=1)
-    ck.rule("R5", "symbolic memory returns the bytes that were written: writer/reader byte-order agreement of MemArray (rules shared with C13-R2)", floor=5)
+    ck.rule("R5", "symbolic memory returns the bytes that were written: writer/reader byte-order agreement of MemArray (rules shared with C13-R2)", floor=4)
     from rules.c13 import byte_order_rules
     byte_order_rules(ck, ck.repo.mod(SE), "R5")
-    ck.rule("R7", "the emulated engine lays a value out big endian at its access width and reverses it last, only for little-endian VMs", floor=6)
+    ck.rule("R7", "the emulated engine lays a value out big endian at its access width and reverses it last, only for little-endian VMs", floor=4)
     emulated_byte_order_rules(ck, "R7")
-    ck.rule("R6", "SymbolMngr store discipline: every path of write() updates the matching table; no bypass, no removal instead of a store", floor=10)
+    ck.rule("R6", "SymbolMngr store discipline: every path of write() updates the matching table; no bypass, no removal instead of a store", floor=8)
     from rules._symstore import symstore_rules
     symstore_rules(ck, "R6")
 
@@ -260,7 +260,8 @@ def emulated_byte_order_rules(ck, rid):
                 operand = norm(sub.value)
                 srcs = [s_ for s_ in cfg.nodes if s_.kind == "stmt" and isinstance(s_.ast, ast.Assign) and any(dotted(c.func) == src for c in node_calls(s_))
                         and isinstance(s_.ast.targets[0], ast.Name) and s_.ast.targets[0].id == operand]
-                ck.ob(rid, "EmulatedSymbExec.%s:reverses-read-bytes" % mname, bool(srcs), em2.where(fn),
+                direct = isinstance(sub.value, ast.Call) and dotted(sub.value.func) == src
+                ck.ob(rid, "EmulatedSymbExec.%s:reverses-read-bytes" % mname, bool(srcs) or direct, em2.where(fn),
                       "the reversed bytes `%s` are not the bytes returned by %s" % (operand, src))
                 early = []
                 for o in cfg.nodes:
